@@ -27,6 +27,7 @@ Inductive aop :=
   | AConfigure (b : option bool)
   | ASetLastLen (l : option nat)
   | ASetTrig (k : option nat)
+  | ASetMaxNodes (n : option positive)
   | ATape (t : list (list positive))
   | ACopy (src : nat) (hu : nat)
   | AShutdown.
@@ -76,6 +77,10 @@ Definition run_aop (w : aworld) (o : aop) : MA value :=
   | AConfigure b => r <- lift (configure b) ;; ret (VB r)
   | ASetLastLen l => lift (modify (fun s => s <| last_len := l |>)) ;;; ret VU
   | ASetTrig k => lift (modify (fun s => s <| trig := k |>)) ;;; ret VU
+  | ASetMaxNodes n =>
+      (* [bdd._bdd.max_nodes = n] on a [dd.autoref.BDD] ([None]: [sys.maxsize]); the
+         modification that [Driver.OSetMaxNodes] performs, on the wrapped manager *)
+      lift (modify (fun s => s <| max_nodes := n |>)) ;;; ret VU
   | ATape t => lift (modify (fun s => s <| tape := t |>)) ;;; ret VU
   | ACopy src hu =>
       (* [src_bdd.copy(u, self)]: u is a handle of ANOTHER manager [src]
